@@ -78,6 +78,11 @@ Section Sync.
   Definition with_chain_temp (n : node) (c : list id) (t : list (nat * id)) : node :=
     {| chain := c; temp := t; finalized := finalized n; banned := banned n |}.
 
+  (* `ctx.Block.Header.Height - commonBlockHeader.Height > twoRounds` in uint32: when the peer names a common block ABOVE
+     the offered block's height the subtraction wraps and the sync is abandoned *)
+  Definition far32 (th hc r2 : nat) : bool :=
+    (N.of_nat r2 <? (N.of_nat th + 4294967296 - N.of_nat hc) mod 4294967296)%N.
+
   (* a temp block at or below the common block's height: re-applying it on top of the common block is rejected by
      the processor (height not consecutive), whatever the block *)
   Definition stale (t : list (nat * id)) (hc : nat) : bool := existsb (fun kv => fst kv <=? hc) t.
@@ -96,7 +101,7 @@ Section Sync.
         | None => (n, Failed)                                   (* GetBlockHeader(blockID) fails *)
         | Some hc =>
             if hc <? finalized n then (ban n, Failed)
-            else if (rounds2 <? (length (chain n) - 1) - hc) || (rounds2 <? target_height - hc) then (n, Aborted)
+            else if (rounds2 <? (length (chain n) - 1) - hc) || far32 target_height hc rounds2 then (n, Aborted)
             else
               match e with
               | EndErr => (n, Failed)                           (* download error: nothing touched *)
